@@ -132,6 +132,13 @@ func main() {
 		root, pairs := rfcDocument(r)
 		return serverReq{path, hx.L("r", requestSx(r)), serialize(root, rng, plain), pairs}
 	}
+	// the same, calendar-data written without comp (only documents are built on
+	// this goroutine, so the switch is not shared with the workers)
+	mkServerReqNC := func(path string, r request, plain bool) serverReq {
+		omitComp = true
+		defer func() { omitComp = false }()
+		return mkServerReq(path, r, plain)
+	}
 
 	// ---- exhaustive: every filter tree with <= 3 nodes x all flag combinations,
 	// through the client, and (its UTC form, when the grammar can carry it)
@@ -279,6 +286,25 @@ func main() {
 		}
 		mg := func(i int) request {
 			return request{multiget: true, cr: utcCr(seqCrs[i%len(seqCrs)]), paths: []string{"/cal/a.ics", "/cal/b.ics"}}
+		}
+		whole := func(ex *[2]inst, mgt bool) request {
+			r := request{multiget: mgt, cr: crV{allprops: true, allcomps: true, expand: ex}, cf: cfV{name: "VCALENDAR", start: zeroInst, end: zeroInst}}
+			if mgt {
+				r.paths = []string{"/cal/a.ics"}
+			}
+			return r
+		}
+		ex1 := &[2]inst{exEnd, {exEnd.sec + 86400, 0}}
+		// the whole object asked for without comp (with expand, then without): expand must not stick
+		jobs <- job{kind: 'S', sreqs: []serverReq{mkServerReqNC("/cal/", whole(ex1, false), true), mkServerReqNC("/cal/", whole(nil, false), false),
+			mkServerReq("/cal/", full(1), true), mkServerReqNC("/cal/work/", whole(nil, true), false), mkServerReq("/cal/", whole(nil, false), false)}}
+		jobs <- job{kind: 'S', sreqs: []serverReq{mkServerReqNC("/cal/", whole(ex1, true), false), mkServerReqNC("/cal/", whole(nil, true), true),
+			mkServerReqNC("/cal/", whole(ex1, false), false), mkServerReqNC("/cal/", whole(nil, false), true)}}
+		for k := 0; k < 20; k++ {
+			// always as a sequence (with expand first), so that a failing line names its history
+			ex := &[2]inst{utcInst(randInst(rng)), utcInst(randInst(rng))}
+			jobs <- job{kind: 'S', sreqs: []serverReq{mkServerReqNC(rng.Pick(reportPaths), whole(ex, k%3 == 0), false),
+				mkServerReqNC(rng.Pick(reportPaths), whole(nil, k%2 == 0), false)}}
 		}
 		jobs <- job{kind: 'S', sreqs: []serverReq{rawReq("/cal/", expandOnly), rawReq("/cal/", emptyData), mkServerReq("/cal/", full(1), true), rawReq("/cal/", emptyData)}}
 		jobs <- job{kind: 'S', sreqs: []serverReq{mkServerReq("/cal/", full(2), true), rawReq("/cal/", noData), rawReq("/cal/", emptyData), rawReq("/cal/", noProp)}}
